@@ -701,19 +701,14 @@ def loo_value(world, method, rows, conds, by):
 
 
 def cv_nc_value(world, method, nc):
-    import rsatoolbox
-    allp = pooled(world, method, nc['rows'], nc['conds']).get_matrices()[0]
+    """cv_noise_ceiling: per fold lower = pool of the ceiling rows (at the test conditions) against the test
+    object; upper = pool of ALL rows of the evaluated object AT THE TEST CONDITIONS of the fold (restricted
+    first, with the multiplicity of the sample, then pooled) against the test object; means over the folds"""
     lo, hi = [], []
     for F in nc['folds']:
         tob = world.data_ob(F['teR'], F['teP'])
         lo.append(sim(world, method, pooled(world, method, F['ceR'], F['ceP']), tob))
-        sel = set(F['teI'])
-        pos = [k for k, c in enumerate(nc['conds']) if pdesc(nc['by'], c) in sel]
-        m = allp[np.ix_(pos, pos)].copy()
-        idc = np.array([nc['conds'][k] for k in pos])
-        m[np.equal.outer(idc, idc)] = np.nan
-        np.fill_diagonal(m, 0.0)
-        hi.append(sim(world, method, rsatoolbox.rdm.RDMs(np.array([m])), tob))
+        hi.append(sim(world, method, pooled(world, method, nc['rows'], F['allP']), tob))
     return float(np.mean(lo)), float(np.mean(hi))
 
 
